@@ -161,4 +161,100 @@ theorem movBlocks_get (ii : Nat) : ∀ (nmov : List Nat) (j0 jj k : Nat) (nm : N
       rw [e, this]
       congr 2; omega
 
+
+/-! ### the assembled global observability matrix -/
+
+/-- the row of the global matrix a `RowSrc` stands for -/
+def srcRow {n : ℕ} (O1ref : ℕ → Fin n → K) (Omovs : ℕ → ℕ → Fin n → K) : RowSrc → Fin n → K
+  | .ref q => O1ref q
+  | .mov jj q => Omovs jj q
+
+theorem blockRow_ref (nref : ℕ) (nmov : List ℕ) (ii s : ℕ) (hs : s < nref) :
+    (blockRow nref nmov ii)[s]? = some (RowSrc.ref (ii * nref + s)) := by
+  unfold blockRow
+  rw [List.getElem?_append_left (by simpa using hs)]
+  simp [hs]
+
+theorem blockRow_mov (nref : ℕ) (nmov : List ℕ) (ii jj nm k : ℕ) (h : nmov[jj]? = some nm) (hk : k < nm) :
+    (blockRow nref nmov ii)[nref + ((nmov.take jj).sum + k)]? = some (RowSrc.mov jj (ii * nm + k)) := by
+  unfold blockRow
+  rw [List.getElem?_append_right (by simp)]
+  simp only [List.length_map, List.length_range, Nat.add_sub_cancel_left]
+  have := movBlocks_get ii nmov 0 jj k nm h hk
+  simpa using this
+
+/-- **C03_assembled.** Suppose the first setup's reference part is the true reference
+    observability matrix times `M1` and every re-based roving part is the true roving
+    observability matrix of its setup times the SAME `M1` (this is what `C03_rebase` delivers).
+    Then the interleaved matrix `Obs_all` is, row by row, the block observability matrix of the
+    GLOBAL output matrix `Cglob` — reference sensors first, then each setup's roving sensors in
+    setup order, the same order in every block row — times `M1`:
+    `Obs_all[ii·nDOF + s] = (Cglob s · A^ii) · M1`. -/
+theorem C03_assembled {n : ℕ} (A M1 : Matrix (Fin n) (Fin n) K) (br nref : ℕ) (nmov : List ℕ)
+    (Cref : ℕ → Fin n → K) (Cmov : ℕ → ℕ → Fin n → K) (Cglob : ℕ → Fin n → K)
+    (O1ref : ℕ → Fin n → K) (Omovs : ℕ → ℕ → Fin n → K)
+    (h1 : ∀ q j, O1ref q j = ∑ k, obsFn nref A Cref q k * M1 k j)
+    (h2 : ∀ jj nm, nmov[jj]? = some nm → ∀ q j, Omovs jj q j = ∑ k, obsFn nm A (Cmov jj) q k * M1 k j)
+    (hC1 : ∀ s, s < nref → Cglob s = Cref s)
+    (hC2 : ∀ jj nm k, nmov[jj]? = some nm → k < nm → Cglob (nref + ((nmov.take jj).sum + k)) = Cmov jj k)
+    (ii : ℕ) (hii : ii < br) :
+    -- reference sensors
+    (∀ s, s < nref →
+      ((allRows br nref nmov)[ii * (nref + nmov.sum) + s]?.map (srcRow O1ref Omovs)) =
+        some (fun j => ∑ k, obsFn (nref + nmov.sum) A Cglob (ii * (nref + nmov.sum) + s) k * M1 k j)) ∧
+    -- roving sensors of setup jj
+    (∀ jj nm k, nmov[jj]? = some nm → k < nm →
+      ((allRows br nref nmov)[ii * (nref + nmov.sum) + (nref + ((nmov.take jj).sum + k))]?.map
+          (srcRow O1ref Omovs)) =
+        some (fun j => ∑ k', obsFn (nref + nmov.sum) A Cglob
+          (ii * (nref + nmov.sum) + (nref + ((nmov.take jj).sum + k))) k' * M1 k' j)) := by
+  have hlen := blockRow_length nref nmov
+  have hget : ∀ s, s < nref + nmov.sum →
+      (allRows br nref nmov)[ii * (nref + nmov.sum) + s]? = (blockRow nref nmov ii)[s]? := by
+    intro s hs
+    rw [allRows_eq]
+    exact flatMap_blocks_get br (nref + nmov.sum) (blockRow nref nmov) hlen ii s hii hs
+  have hrefcase : ∀ s, s < nref →
+      ((allRows br nref nmov)[ii * (nref + nmov.sum) + s]?.map (srcRow O1ref Omovs)) =
+        some (fun j => ∑ k, obsFn (nref + nmov.sum) A Cglob (ii * (nref + nmov.sum) + s) k * M1 k j) := by
+    intro s hs
+    have hs' : s < nref + nmov.sum := by omega
+    rw [hget s hs', blockRow_ref nref nmov ii s hs]
+    simp only [Option.map_some, srcRow]
+    congr 1
+    funext j
+    rw [h1]
+    apply Finset.sum_congr rfl
+    intro k _
+    congr 1
+    unfold obsFn
+    rw [blk_mod ii hs, blk_div ii hs, blk_mod ii hs', blk_div ii hs', hC1 s hs]
+  refine ⟨hrefcase, ?_⟩
+  intro jj nm k hjj hk
+  -- the offset is inside the block row
+  have hoff : (nmov.take jj).sum + k < nmov.sum := by
+    have hsplit : nmov.sum = (nmov.take jj).sum + (nmov.drop jj).sum := by
+      rw [← List.sum_append, List.take_append_drop]
+    have hdrop : nm ≤ (nmov.drop jj).sum := by
+      have hjlt : jj < nmov.length := by
+        by_contra hcon
+        have : nmov[jj]? = none := List.getElem?_eq_none (by omega)
+        rw [this] at hjj; cases hjj
+      rw [List.drop_eq_getElem_cons hjlt, List.sum_cons]
+      have : nmov[jj] = nm := by
+        rw [List.getElem?_eq_getElem hjlt] at hjj; exact Option.some.inj hjj
+      omega
+    omega
+  have hs' : nref + ((nmov.take jj).sum + k) < nref + nmov.sum := by omega
+  rw [hget _ hs', blockRow_mov nref nmov ii jj nm k hjj hk]
+  simp only [Option.map_some, srcRow]
+  congr 1
+  funext j
+  rw [h2 jj nm hjj]
+  apply Finset.sum_congr rfl
+  intro k' _
+  congr 1
+  unfold obsFn
+  rw [blk_mod ii hk, blk_div ii hk, blk_mod ii hs', blk_div ii hs', hC2 jj nm k hjj hk]
+
 end PV.C03
